@@ -95,10 +95,11 @@ SPECS["C17"] = dict(level="exploration", assumptions=["SQLite stores durations a
     parts=[dict(name="config", binary="rigv", pkg="rigv", test="TestC17", shards={"quick": 8, "thorough": 16}),
            dict(name="codec", binary="rigu", pkg="rigu", test="TestC17codec", race=False, shards={"quick": 4, "thorough": 16})])
 
-SPECS["C18"] = dict(level="exploration", assumptions=["schedules are whatever the Go scheduler produces on 16 cores for spin-started goroutines (thousands of trials); the race detector watches every trial", "with several overlapping descriptions the exact total is only defined when every matching call matches all of them: such trials use calls whose parameters are a superset of every description"],
+SPECS["C18"] = dict(level="exploration", server=True, assumptions=["schedules are whatever the Go scheduler produces on 16 cores for spin-started goroutines (thousands of trials); the race detector watches every trial", "with several overlapping descriptions the exact total is only defined when every matching call matches all of them: such trials use calls whose parameters are a superset of every description"],
     min_relevant={"quick": 500, "thorough": 10000},
-    rule="thousands of trials: a fresh fault Set, 1-3 descriptions for one operation (counts 0,1,2,7,64,MaxInt64; parameter subsets incl. empty/nil), 1/2/10/64 callers released together, a mix of matching and non-matching calls; after all returned: #failed calls == min(sum of counts, #matching calls), each description fired <= its count, non-matching calls and other operations never fail, Current() (after the asynchronous prune settled) lists exactly the remaining counts. Plus the gRPC interceptor with real protobuf requests under both field-name forms. Non-trivial = more than one concurrent caller; relevant = trials with more matching callers than the total count (contended last decrement).",
-    parts=[dict(name="set", binary="rigu", pkg="rigu", test="TestC18", race=True, shards={"quick": 16, "thorough": 16})])
+    rule="thousands of trials: a fresh fault Set, 1-3 descriptions for one operation (counts 0,1,2,7,64,MaxInt64; parameter subsets incl. empty/nil), 1/2/10/64 callers released together, a mix of matching and non-matching calls; after all returned: #failed calls == min(sum of counts, #matching calls), each description fired <= its count, non-matching calls and other operations never fail, Current() (after the asynchronous prune settled) lists exactly the remaining counts. Plus the gRPC interceptor with real protobuf requests under both field-name forms, and an end-to-end part on the real binary: POST /faults/inject, 1-32 concurrent gRPC callers, GET /faults. Non-trivial = more than one concurrent caller; relevant = trials with more matching callers than the total count (contended last decrement).",
+    parts=[dict(name="set", binary="rigu", pkg="rigu", test="TestC18", race=True, shards={"quick": 16, "thorough": 16}),
+           dict(name="http", binary="rigp", pkg="rigp", test="TestC18http", shards={"quick": 2, "thorough": 8})])
 
 SPECS["C19"] = dict(level="exploration", assumptions=SCHED_ASSUME[1:] + ["the endpoint is an in-memory http.RoundTripper inside the bubble, so HTTP/1.1 framing and 1xx handling of net/http are not in the loop (a scripted 102 is observed as a final status, as the statement allows)", "in-flight bound: min(1000, 1 + success replies already sent) - a sound upper bound of the adaptive window"],
     min_relevant={"quick": 1000, "thorough": 20000},
